@@ -10,6 +10,7 @@ import (
 	"io"
 	"reflect"
 	"runtime"
+	"strconv"
 
 	"github.com/segmentio/kafka-go/compress"
 	"github.com/segmentio/kafka-go/compress/gzip"
@@ -55,6 +56,7 @@ type Use struct {
 	Kind   string `json:"kind"` // "w" | "r"
 	Codec  string `json:"codec"`
 	Mode   string `json:"mode"` // snappy: framed | unframed
+	Level  string `json:"level"` // "" = the codec's default; snappy: faster | better | best; gzip, zstd: the integer Level of the Codec
 	Key    string `json:"key"`  // identifies the use script (same key = same use, whatever came before)
 	PClass string `json:"pclass"`
 	PSeed  int64  `json:"pseed"`
@@ -207,29 +209,58 @@ func objID(v interface{}) uintptr {
 	return 0
 }
 
+// codecs holds the codec VALUES of one history, one per (codec, framing, level), made on first use.  The snappy, lz4 and
+// gzip-reader / zstd-decoder pools are package-wide (shared by all values); the gzip writer and zstd encoder pools belong to the value.
 type codecs struct {
-	gz     *gzip.Codec
-	framed *snappy.Codec
-	unfr   *snappy.Codec
-	lz     *lz4.Codec
-	zs     *zstd.Codec
+	m map[string]compress.Codec
 }
 
-func (c *codecs) get(codec, mode string) compress.Codec {
+// SnappyLevels / GzipLevels / ZstdLevels: the non-default levels the Codec types can be configured with.
+var SnappyLevels = map[string]snappy.Compression{"": snappy.DefaultCompression, "faster": snappy.FasterCompression,
+	"better": snappy.BetterCompression, "best": snappy.BestCompression}
+
+// NewCodec makes a fresh codec value.
+func NewCodec(codec, mode, level string) compress.Codec {
+	lv := 0
+	if level != "" && codec != "snappy" {
+		n, err := strconv.Atoi(level)
+		if err != nil {
+			panic("bad level " + level)
+		}
+		lv = n
+	}
 	switch codec {
 	case "gzip":
-		return c.gz
+		return &gzip.Codec{Level: lv}
 	case "snappy":
-		if mode == "unframed" {
-			return c.unfr
+		c, ok := SnappyLevels[level]
+		if !ok {
+			panic("bad snappy level " + level)
 		}
-		return c.framed
+		f := snappy.Framed
+		if mode == "unframed" {
+			f = snappy.Unframed
+		}
+		return &snappy.Codec{Framing: f, Compression: c}
 	case "lz4":
-		return c.lz
+		if level != "" {
+			panic("lz4.Codec has no level")
+		}
+		return &lz4.Codec{}
 	case "zstd":
-		return c.zs
+		return &zstd.Codec{Level: lv}
 	}
-	return nil
+	panic("unknown codec " + codec)
+}
+
+func (c *codecs) get(codec, mode, level string) compress.Codec {
+	k := codec + "/" + mode + "/" + level
+	if v, ok := c.m[k]; ok {
+		return v
+	}
+	v := NewCodec(codec, mode, level)
+	c.m[k] = v
+	return v
 }
 
 func hash(b []byte) int {
@@ -249,8 +280,7 @@ func Run(sc *Script) []trace.Event {
 	// empty the pools: sync.Pool drops everything after two collections
 	runtime.GC()
 	runtime.GC()
-	cs := &codecs{gz: &gzip.Codec{}, framed: &snappy.Codec{Framing: snappy.Framed}, unfr: &snappy.Codec{Framing: snappy.Unframed},
-		lz: &lz4.Codec{}, zs: &zstd.Codec{}}
+	cs := &codecs{m: map[string]compress.Codec{}}
 	evs := []trace.Event{{"ev": "hist", "id": sc.ID, "class": sc.Class}}
 	ids := map[uintptr]int{}
 	outs := make([]*useOut, len(sc.Uses)+1)
@@ -273,7 +303,7 @@ func Run(sc *Script) []trace.Event {
 				e = runReader(cs, u, ids, outs)
 			}
 		}()
-		e["ev"], e["hid"], e["u"], e["kind"], e["codec"], e["mode"], e["key"] = "use", sc.ID, i+1, u.Kind, u.Codec, u.Mode, u.Key
+		e["ev"], e["hid"], e["u"], e["kind"], e["codec"], e["mode"], e["level"], e["key"] = "use", sc.ID, i+1, u.Kind, u.Codec, u.Mode, u.Level, u.Key
 		if _, crashed := e["crash"]; crashed {
 			e["ev"] = "crash"
 		}
@@ -306,7 +336,7 @@ func runWriter(cs *codecs, u *Use, ids map[uintptr]int) (trace.Event, *useOut) {
 	}
 	payload := Payload(u.PClass, u.PSeed, total)
 	sk := &sink{budget: u.Budget}
-	w := cs.get(u.Codec, u.Mode).NewWriter(sk)
+	w := cs.get(u.Codec, u.Mode, u.Level).NewWriter(sk)
 	obj, reused := ident(ids, w)
 	pos := 0
 	failed, closed := false, false
@@ -355,12 +385,18 @@ func runWriter(cs *codecs, u *Use, ids map[uintptr]int) (trace.Event, *useOut) {
 		"closed": closed, "outlen": len(out), "osum": hash(out), "psum": hash(payload[:pos])}
 	frames := [][3]int{}
 	hdr, rest, refok, eq, declen := false, 0, false, false, -1
+	// the reference decoder of the format and its verdict on every block of the output (snappy: the strict block decoder)
+	refdec, referr := map[string]string{"gzip": "stdlib-gzip", "lz4": "pierrec-lz4-frame", "zstd": "klauspost-zstd-frame"}[u.Codec], ""
+	strict := []map[string]interface{}{}
 	if u.Codec == "snappy" {
+		refdec = "snappy-block-strict"
 		p := ParseSnappy(out)
 		hdr, rest = p.Hdr, p.Rest
 		for _, f := range p.Frames {
 			frames = append(frames, [3]int{f.Prefix, f.CLen, f.DLen})
+			strict = append(strict, f.Strict())
 		}
+		referr = p.FirstBad()
 		refok = rest == 0
 		for _, f := range p.Frames {
 			if f.DLen < 0 {
@@ -372,10 +408,14 @@ func runWriter(cs *codecs, u *Use, ids map[uintptr]int) (trace.Event, *useOut) {
 	} else {
 		d, err := RefDecode(u.Codec, out)
 		refok = err == nil
+		if err != nil {
+			referr = err.Error()
+		}
 		declen = len(d)
 		eq = err == nil && bytes.Equal(d, payload[:pos])
 	}
 	e["hdr"], e["frames"], e["rest"], e["refok"], e["eq"], e["declen"] = hdr, frames, rest, refok, eq, declen
+	e["refdec"], e["strict"], e["referr"] = refdec, strict, referr
 	return e, &useOut{out: out, payload: payload[:pos], ok: closed && !failed && !sk.failed}
 }
 
@@ -444,7 +484,7 @@ func runReader(cs *codecs, u *Use, ids map[uintptr]int, outs []*useOut) trace.Ev
 		tr = map[string]interface{}{"item": t.Item, "part": t.Part, "kind": t.Kind, "frac": t.Frac}
 	}
 	src := &source{b: stream[:cut], chunk: u.SrcChunk, endErr: endErr, eofWithData: u.EOFWithData}
-	r := cs.get(u.Codec, u.Mode).NewReader(src)
+	r := cs.get(u.Codec, u.Mode, u.Level).NewReader(src)
 	obj, reused := ident(ids, r)
 	pos, eq := 0, true
 	final := "none"
